@@ -161,9 +161,9 @@ theorem delivered_contents_immutable_needs_get :
 
 /-- **Delivered parameters are immutable.**  For every interleaving of the steps of `csiDispatch`
     (`Get()[:0]` from the list pool and the param pool returning *any* pooled slice or a new one,
-    `append`s in place or growing to any capacity, `emit`) with consumer `Finish` calls (which put
-    every parameter slice and then the list back; any order, any number of sequences held, at most
-    once per sequence), from the initial state: every delivered, unfinished CSI reads through
+    `append`s in place or growing to any capacity, `emit`) with the individual `Put`s of consumer
+    `Finish` calls (each parameter slice, then the list; several calls may be in progress; any
+    order, any number of sequences held, `Finish` at most once per sequence), from the initial state: every delivered, unfinished CSI reads through
     `seq.Parameters` — list cells `[0,len)` and, through each header, `[]int` cells `[0,len_i)` —
     exactly the values it read when it was delivered. -/
 theorem delivered_params_immutable (ls : List PLabel) (s : PSt) (h : prun PSt.init ls = some s)
@@ -187,8 +187,8 @@ theorem params_snapshot_taken_at_delivery (s s' : PSt) (h : pstep s .emit = some
 /-- **One owner per array, in both heaps**, along every run: the `[][]int` arrays of the running
     dispatch, of pooled lists and of delivered sequences are pairwise distinct; the `[]int` arrays
     of `param`, of the headers already appended to `csi.Parameters`, of pooled params and of all
-    headers of all delivered sequences are pairwise distinct (no repetition in `lowners`/`powners`);
-    all are allocated. -/
+    headers of all delivered sequences and of those a `Finish` in progress has yet to put are
+    pairwise distinct (no repetition in `lowners`/`powners`); all are allocated. -/
 theorem param_arrays_one_owner (ls : List PLabel) (s : PSt) (h : prun PSt.init ls = some s) :
     (lowners s).Nodup ∧ (powners s).Nodup ∧
     (∀ a ∈ lowners s, a < s.lheap.length) ∧ (∀ a ∈ powners s, a < s.pheap.length) := by
@@ -201,11 +201,21 @@ theorem param_arrays_one_owner (ls : List PLabel) (s : PSt) (h : prun PSt.init l
     reuse really overwrites, in place, what the finished sequence pointed to — while the unfinished
    `CSI 4 m` and the new sequence are intact, and the owner lists have no repetition. -/
 example :
-    (prun PSt.init (pReuseTrace.take 15)).map (fun s => (s.pheap.map (·.take 2), s.ppool, s.lpool)) =
-      some ([[1, 0], [2, 3], [4, 0]], [⟨0, 1⟩, ⟨1, 2⟩], [⟨0, 2⟩]) ∧
+    (prun PSt.init (pReuseTrace.take 18)).map (fun s => (s.pheap.map (·.take 2), s.ppool, s.lpool)) =
+      some ([[1, 0], [2, 3], [4, 0]], [⟨1, 2⟩, ⟨0, 1⟩], [⟨0, 2⟩]) ∧
     (prun PSt.init pReuseTrace).map (fun s => (s.pheap.map (·.take 2), s.delivered, lowners s, powners s)) =
-      some ([[5, 0], [6, 3], [4, 0]], [⟨⟨0, 2⟩, [[5], [6]]⟩, ⟨⟨1, 1⟩, [[4]]⟩], [0, 1], [0, 1, 2]) ∧
+      some ([[6, 0], [5, 3], [4, 0]], [⟨⟨0, 2⟩, [[5], [6]]⟩, ⟨⟨1, 1⟩, [[4]]⟩], [0, 1], [1, 0, 2]) ∧
     (prun PSt.init pReuseTrace).map pAllIntact = some true := by decide
+
+/-- … and with the parser running ahead of the `Finish` loop (a parameter array is taken by `Get` as
+    soon as it is put, while the `Finish` call still reads the list it has not yet put; the dispatch
+    in progress spans `finish`/`finPut` steps). -/
+example :
+    (prun PSt.init (pReuseTrace2.take 14)).map (·.work) = some (some (⟨1, 0⟩, some ⟨2, 1⟩)) ∧
+    (prun PSt.init (pReuseTrace2.take 14)).map (fun s => (s.ppool, s.fin)) = some ([⟨0, 1⟩], [(⟨0, 2⟩, 1)]) ∧
+    (prun PSt.init pReuseTrace2).map (fun s => (s.pheap.map (·.take 2), s.delivered, s.lpool, s.fin)) =
+      some ([[5, 0], [6, 3], [4, 0]], [⟨⟨2, 2⟩, [[5], [6]]⟩, ⟨⟨1, 1⟩, [[4]]⟩], [⟨0, 2⟩], []) ∧
+    (prun PSt.init pReuseTrace2).map pAllIntact = some true := by decide
 
 /-- Growth of both kinds of array is exercised too: 7 sub-parameters in one parameter (capacity 6),
     5 parameters (capacity 4). -/
